@@ -75,6 +75,7 @@ func seed() int {
 // runRules evaluates the given rules on a loaded program, converting checker
 // panics into undecided obligations (a rule that crashes has decided nothing).
 func runRules(p *Program, rules []string) *Run {
+	currentProgram = p
 	r := &Run{P: p}
 	for _, name := range rules {
 		rule := ruleTable[name]
